@@ -24,8 +24,9 @@ echo "exit=$? $(grep -E '^SUMMARY' "$TMP/out.log" | tail -1)"
 go tool covdata textfmt -i "$TMP/cov" -o "$TMP/prof.txt" || exit 2
 grep -v '^verif/' "$TMP/prof.txt" > "$TMP/prof2.txt"
 go tool cover -func="$TMP/prof2.txt" > "$OUT/$ID.func.txt" 2> "$TMP/cover.err" || { head "$TMP/cover.err"; exit 2; }
+cp "$TMP/prof2.txt" "$OUT/$ID.prof.txt"
 python3 - "$ID" "$OUT" <<'PY'
-import json,sys
+import json,sys,collections
 pid,out=sys.argv[1],sys.argv[2]
 files=[]
 for l in open('properties.jsonl'):
@@ -35,5 +36,21 @@ rows=[l for l in open(f'{out}/{pid}.func.txt') if any(('/'+f.split('go/',1)[1]+'
 open(f'{out}/{pid}.anchors.txt','w').writelines(rows)
 zero=[l for l in rows if l.rstrip().endswith('\t0.0%')]
 missing=[f for f in files if not any(('/'+f.split('go/',1)[1]+':') in l for l in rows)]
+# uncovered statement blocks of the anchor files (merged over duplicate profile lines), largest first
+cnt=collections.defaultdict(int); stm={}
+for l in open(f'{out}/{pid}.prof.txt'):
+    if l.startswith('mode:'): continue
+    loc,n,c=l.rsplit(' ',2)
+    cnt[loc]+=int(c); stm[loc]=int(n)
+unc=[]
+for loc,c in cnt.items():
+    f=loc.split(':')[0]
+    if c==0 and any(f.endswith('/'+a.split('go/',1)[1]) for a in files):
+        rng=loc.split(':')[1]
+        unc.append((f.split('oasis-core/go/')[1],int(rng.split('.')[0]),rng,stm[loc]))
+unc.sort()
+open(f'{out}/{pid}.uncovered.txt','w').writelines(f'{f}:{r} stmts={n}\n' for f,_,r,n in unc)
+tot=sum(stm[l] for l in cnt if any(l.split(':')[0].endswith('/'+a.split('go/',1)[1]) for a in files))
+print(f'{pid}: {sum(n for *_,n in unc)} of {tot} statements in anchor files never executed')
 print(f'{pid}: {len(rows)} functions in anchor files, {len(zero)} never executed; anchor files not linked into the check: {missing}')
 PY
